@@ -201,8 +201,10 @@ def leaf_of(forest: tuple) -> str:
 
 
 class Rend:
-    def __init__(self, rot: int):
+    def __init__(self, rot: int, namelen: int = 0, nmode: str = ""):
         self.rot = rot
+        self.namelen = namelen  # > 0: every DEFINED name (config / menuconfig / choice line) has exactly this many characters
+        self.nmode = nmode  # "p3": the names of one block have a common prefix of exactly 3 characters ("p2": 2, not compliant)
         self.lines: List[Tuple[str, str]] = []
         self.files: Dict[str, List[Tuple[str, str]]] = {}
         self.ncfg = 0
@@ -215,6 +217,18 @@ class Rend:
     def blank(self) -> None:
         self.add(0, "", "blank")
 
+    def nm(self, name: str) -> str:
+        """the name an entry is DEFINED under (referenced-only condition symbols keep the short base name)"""
+        if self.nmode and name[-1] in "13579":
+            # APP_E0 / APPE1, APP_E0_0 / APPE0_1: siblings share exactly "APP"; "p2": AP_E0 / APE1 share exactly "AP"
+            name = name.replace("_", "", 1)
+        if self.nmode == "p2":
+            name = name.replace("APP", "AP", 1)
+        if self.namelen:
+            name = name + "_" + "Z" * (self.namelen - len(name) - 1)
+            assert len(name) == self.namelen
+        return name
+
     # -- entries
     def cfg(self, ind: int, name: str, flavour: Optional[str] = None, kw: str = "config", member: bool = False) -> None:
         if flavour is None:
@@ -222,8 +236,9 @@ class Rend:
             flavour = fl[(self.ncfg + self.rot) % len(fl)]
             self.ncfg += 1
         i2 = ind + 4
+        dn = self.nm(name)
         if flavour == "help":
-            self.add(ind, f"{kw} {name}", kw)
+            self.add(ind, f"{kw} {dn}", kw)
             self.add(i2, f'bool "alpha {name}"', "prop")
             self.add(i2, f"default y if {name}_D", "prop")
             self.add(i2, "help", "help")
@@ -233,37 +248,37 @@ class Rend:
             self.add(i2 + 6, "deeper line", "help.deep")
             self.add(i2 + 4, "config keyword in the help", "help.kw")
         elif flavour == "contmid":
-            self.add(ind, f"{kw} {name}", kw)
+            self.add(ind, f"{kw} {dn}", kw)
             self.add(i2, f'int "count {name}"', "prop")
             self.add(i2, "range 1 \\", "prop.bs")
             self.add(i2 + 4, "9", "cont")
             self.add(i2, "default 3", "prop")
         elif flavour == "contlast":
-            self.add(ind, f"{kw} {name}", kw)
+            self.add(ind, f"{kw} {dn}", kw)
             self.add(i2, f'bool "flag {name}"', "prop")
             self.add(i2, f"default y if {name}_D1 || \\", "prop.bs")
             self.add(i2 + 4, f"{name}_D2 || \\", "cont.bs")
             self.add(i2 + 4, f"{name}_D3", "cont")
         elif flavour == "cmt":
             self.add(ind, f"# note about {name}", "hash")
-            self.add(ind, f"{kw} {name}", kw)
+            self.add(ind, f"{kw} {dn}", kw)
             self.add(i2, f'bool "note {name}" # trailing remark', "prop.hash")
             self.add(i2, "# inner remark", "hash")
             self.add(i2, "default n", "prop")
         elif flavour == "plain":
-            self.add(ind, f"{kw} {name}", kw)
+            self.add(ind, f"{kw} {dn}", kw)
             self.add(i2, f'bool "plain {name}"', "prop")
         elif flavour == "str":
-            self.add(ind, f"{kw} {name}", kw)
+            self.add(ind, f"{kw} {dn}", kw)
             self.add(i2, "string", "prop")
             self.add(i2, f'prompt "text {name}" if {name}_D', "prop")
             self.add(i2, 'default "v#1 x"', "prop")
         elif flavour == "strhash":
-            self.add(ind, f"{kw} {name}", kw)
+            self.add(ind, f"{kw} {dn}", kw)
             self.add(i2, f'string "text {name}"', "prop")
             self.add(i2, f'default "w x" if {name}_D = "a#b"', "prop")
         elif flavour == "mhelp":
-            self.add(ind, f"{kw} {name}", kw)
+            self.add(ind, f"{kw} {dn}", kw)
             self.add(i2, f'bool "group {name}"', "prop")
             self.add(i2, "help", "help")
             self.add(i2 + 4, "Group help.", "help.first")
@@ -317,11 +332,11 @@ class Rend:
             self.blank()
         elif k in ("choice", "uchoice"):
             if k == "choice":
-                self.add(ind, f"choice {name}", "choice")
+                self.add(ind, f"choice {self.nm(name)}", "choice")
             else:
                 self.add(ind, "choice", "choice")
             self.add(ind + 4, f'prompt "pick {name}" if {name}_K', "prop")
-            self.add(ind + 4, f"default {name}_0", "prop")
+            self.add(ind + 4, f"default {self.nm(name + '_0')}", "prop")
             if (self.nother + self.rot) % 2 == 0:
                 self.add(ind + 4, "help", "help")
                 self.add(ind + 8, "Choice help.", "help.first")
@@ -344,9 +359,9 @@ def _finish(lines: List[Tuple[str, str]]) -> List[Tuple[str, str]]:
     return lines
 
 
-def render_program(forest: tuple, rot: int, pos: str) -> Dict[str, List[Tuple[str, str]]]:
+def render_program(forest: tuple, rot: int, pos: str, namelen: int = 0, nmode: str = "") -> Dict[str, List[Tuple[str, str]]]:
     """-> {file name: [(line, label)]}; root is "Kconfig" """
-    r = Rend(rot)
+    r = Rend(rot, namelen, nmode)
     if pos == "main":
         r.add(0, 'mainmenu "Top"', "mainmenu")
         r.blank()
@@ -365,8 +380,30 @@ def render_program(forest: tuple, rot: int, pos: str) -> Dict[str, List[Tuple[st
     return files
 
 
+def render_spec(spec: Dict[str, Any]) -> Dict[str, List[Tuple[str, str]]]:
+    return render_program(spec["forest"], spec["rot"], spec["pos"], spec.get("namelen", 0), spec.get("nmode", ""))
+
+
 def text_of(lines: List[Tuple[str, str]]) -> str:
     return "".join(l + "\n" for l, _ in lines)
+
+
+NAME_MAX = 50  # "The maximum length of options is 50 characters."
+PREFIX_MIN = 3  # "The prefix currently should have at least 3 characters."
+BOUND_FORESTS = (
+    (("cfg", "plain"), ("mcfg",), ("choice", (("cfg", "plain"), ("cfg", "help")))),
+    (("menu", (("cfg", "help"), ("mcfg",), ("uchoice", (("cfg", "plain"), ("cfg", "plain"))))),),
+)
+
+
+def control_specs() -> List[Dict[str, Any]]:
+    """files that break exactly one documented limit on names by one (NOT compliant: outside the statement; see check_control)"""
+    out = []
+    for f in BOUND_FORESTS:
+        for pos in ("main", "sub"):
+            for namelen, nmode in ((NAME_MAX + 1, ""), (0, "p2")):
+                out.append({"forest": f, "rot": 0, "pos": pos, "D": 0, "tag": "control", "namelen": namelen, "nmode": nmode})
+    return out
 
 
 def programs(tier: str) -> List[Dict[str, Any]]:
@@ -374,13 +411,18 @@ def programs(tier: str) -> List[Dict[str, Any]]:
     out: List[Dict[str, Any]] = []
     seen = set()
 
-    def emit(forest, rot, pos, dist, tag):
-        files = render_program(forest, rot, pos)
+    def emit(forest, rot, pos, dist, tag, namelen=0, nmode=""):
+        files = render_program(forest, rot, pos, namelen, nmode)
         key = common.h64(sorted((k, text_of(v)) for k, v in files.items()))
         if key in seen:
             return
         seen.add(key)
-        out.append({"forest": forest, "rot": rot, "pos": pos, "D": dist, "tag": tag})
+        spec = {"forest": forest, "rot": rot, "pos": pos, "D": dist, "tag": tag}
+        if namelen:
+            spec["namelen"] = namelen
+        if nmode:
+            spec["nmode"] = nmode
+        out.append(spec)
 
     nfl = len(CFG_FLAVOURS)
 
@@ -416,6 +458,13 @@ def programs(tier: str) -> List[Dict[str, Any]]:
     ):
         for pos in ("main", "sub"):
             emit(f, 0, pos, 2 if thorough else 1, "extra")
+    # names at the documented limits: every defined name (config / menuconfig / choice / choice member) exactly NAME_MAX and
+    # NAME_MAX - 1 characters long; sibling names whose common prefix is exactly PREFIX_MIN characters (alone and together
+    # with maximal length).  quick: single sites and same-line pairs only (D=0)
+    for f in BOUND_FORESTS:
+        for pos in ("main", "sub"):
+            for namelen, nmode in ((NAME_MAX, ""), (NAME_MAX - 1, ""), (0, "p3"), (NAME_MAX, "p3")):
+                emit(f, 0, pos, 1 if thorough else 0, "bound", namelen, nmode)
     if thorough:
         for f in forests(3, 3):
             emit(f, hrot(f), hpos(f), 1, "n3")
@@ -1108,6 +1157,20 @@ def fmt_ops(ops, lines) -> str:
 # ----------------------------------------------------------------------------------------------------------
 
 REN_KINDS = ("cmt", "blank", "plain", "inv", "tail", "lower", "wide")
+# names at the documented length limit (counted WITHOUT the CONFIG_ prefix, as in Kconfig files where the names are written
+# without it): NEW name of exactly NAME_MAX / NAME_MAX - 1 characters, plain and behind `!`; OLD name of NAME_MAX and
+# NAME_MAX + 1 characters ("old names may not comply with the rules": only their prefix is checked); both at NAME_MAX
+REN_BOUND_KINDS = ("new50", "new49", "inv50", "inv49", "old50", "old51", "both50")
+# NOT compliant (controls, see check_control): NEW name one over the limit, and at / one over the limit + len("CONFIG_")
+REN_CONTROL_KINDS = ("new51", "inv51", "new57", "new58")
+
+
+def bname(tag: str, i: int, length: int) -> str:
+    """an upper-case option name of exactly `length` characters (without CONFIG_)"""
+    base = f"APP_{tag}{i}_"
+    name = base + "Q" * (length - len(base))
+    assert len(name) == length
+    return name
 
 
 def rename_lines(kinds: Tuple[str, ...]) -> List[Tuple[str, str]]:
@@ -1127,16 +1190,35 @@ def rename_lines(kinds: Tuple[str, ...]) -> List[Tuple[str, str]]:
             out.append((f"CONFIG_old_l{i}x CONFIG_APP_NEW_L{i}X", "rename.lowercase_old"))
         elif k == "wide":
             out.append((f"CONFIG_OLD_W{i}      CONFIG_APP_NEW_W{i}", "rename.wide"))
+        elif k[:3] in ("new", "inv") and k[3:].isdigit():
+            bang = "!" if k[:3] == "inv" else ""
+            out.append((f"CONFIG_OLD_{k[0].upper()}{i} {bang}CONFIG_{bname('N', i, int(k[3:]))}", "rename." + k))
+        elif k[:3] == "old" and k[3:].isdigit():
+            out.append((f"CONFIG_{bname('O', i, int(k[3:]))} CONFIG_APP_NEW_O{i}", "rename." + k))
+        elif k[:4] == "both" and k[4:].isdigit():
+            out.append((f"CONFIG_{bname('O', i, int(k[4:]))} CONFIG_{bname('N', i, int(k[4:]))}", "rename." + k))
+        else:
+            raise ValueError(k)
     return out
 
 
 def rename_programs(tier: str) -> List[Tuple[str, ...]]:
     out = []
+    allk = REN_KINDS + REN_BOUND_KINDS
     for n in (1, 2) if tier == "quick" else (1, 2, 3):
-        for ks in itertools.product(REN_KINDS, repeat=n):
+        for ks in itertools.product(allk, repeat=n):
             if ks[-1] == "blank":
                 continue  # canonical files do not end in blank lines
+            if n == 3 and sum(k in REN_BOUND_KINDS for k in ks) > 1:
+                continue  # three lines: at most one of them carries a boundary-length name
             out.append(ks)
+    return out
+
+
+def rename_controls() -> List[Tuple[str, ...]]:
+    out = []
+    for k in REN_CONTROL_KINDS:
+        out += [(k,), ("plain", k), (k, "plain"), ("cmt", k, "new50")]
     return out
 
 
@@ -1151,7 +1233,7 @@ KALPHA = IND_OPS + TRAIL_OPS + STR_OPS
 def items(tier: str, seed: int):
     out = []
     for spec in programs(tier):
-        files = render_program(spec["forest"], spec["rot"], spec["pos"])
+        files = render_spec(spec)
         for target, ls in files.items():
             if target == "Kconfig" and spec["pos"] == "sub" and spec["tag"] != "n1":
                 continue  # the 3-line root of sourced bodies is identical everywhere; mangled once per n=1 program
@@ -1161,12 +1243,13 @@ def items(tier: str, seed: int):
     per = 8
     for i in range(0, len(rens), per):
         out.append({"family": "rename", "kinds": rens[i : i + per]})
+    out.append({"family": "control", "specs": control_specs(), "renames": rename_controls()})
     return out
 
 
 def run_kconfig_item(item, r: common.Result) -> None:
     spec = item["spec"]
-    prog = render_program(spec["forest"], spec["rot"], spec["pos"])
+    prog = render_spec(spec)
     files = {fn: text_of(ls) for fn, ls in prog.items()}
     target = item["target"]
     lines = [l for l, _ in prog[target]]
@@ -1225,10 +1308,70 @@ def run_rename_item(item, r: common.Result) -> None:
             ctx.close()
 
 
+def check_control(ctx: Ctx, r: common.Result, labels: List[str], spec: Any, broken: str) -> None:
+    """A file that breaks exactly one documented limit on names by one.  It is neither compliant nor a file 'whose only
+    defects are indentation / tabs / trailing whitespace', so the statement demands no particular verdict: the verdict is
+    recorded (counters, outcome); what IS demanded is that the checker returns (no exception) and that what it returns
+    agrees with what it prints."""
+    text = ctx.files[ctx.target]
+    case = {"family": ctx.family, "control": broken, "files": ctx.files, "target": ctx.target, "ops": [], "mangled": text, "labels": labels, "spec": repr(spec)}
+    for replace in (False, True):
+        r.evals += 1
+        mode = "replace" if replace else "check"
+        v = ctx.validate_real(text, replace)
+        if v[0] == "exc":
+            r.violation(
+                {"kind": "exception", "exc": v[1], "site": v[2], "mode": mode, "mangling": "none", "entry": "control:" + broken},
+                f"[{ctx.family} control {broken} {ctx.target}] validate_file({mode}) raised {v[1]} at {v[2]} ({v[3]})",
+                case,
+            )
+            continue
+        _, ok, out, said_ok, left, first = v
+        r.count(f"control_{broken}_{'accepted' if ok else 'refused'}")
+        r.outcome(("control", ctx.family, broken, mode, ctx.target, text, bool(ok), left, first))
+        if bool(ok) != bool(said_ok):
+            r.violation(
+                {"kind": "verdict_inconsistent", "mode": mode, "mangling": "none", "entry": "control:" + broken},
+                f"[{ctx.family} control {broken} {ctx.target}] validate_file({mode}) returned {ok} but printed OK: {said_ok}",
+                case,
+            )
+
+
+def _control_target(spec: Dict[str, Any]) -> str:
+    return "Kconfig" if spec["pos"] == "main" else "Kconfig.body"
+
+
+def _control_name(spec: Dict[str, Any]) -> str:
+    return f"name_length_{spec['namelen']}" if spec.get("namelen") else f"common_prefix_{spec['nmode']}"
+
+
+def run_control_item(item, r: common.Result) -> None:
+    for spec in item["specs"]:
+        prog = render_spec(spec)
+        files = {fn: text_of(ls) for fn, ls in prog.items()}
+        target = _control_target(spec)
+        ctx = Ctx(files, target)
+        try:
+            r.programs += 1
+            check_control(ctx, r, [lb for _, lb in prog[target]], spec, _control_name(spec))
+        finally:
+            ctx.close()
+    for kinds in item["renames"]:
+        ls = rename_lines(kinds)
+        ctx = Ctx({"sdkconfig.rename": text_of(ls)}, "sdkconfig.rename", family="rename")
+        try:
+            r.programs += 1
+            check_control(ctx, r, [lb for _, lb in ls], {"rename": list(kinds)}, next(k for k in kinds if k in REN_CONTROL_KINDS))
+        finally:
+            ctx.close()
+
+
 def run_item(item) -> common.Result:
     r = common.Result()
     if item["family"] == "kconfig":
         run_kconfig_item(item, r)
+    elif item["family"] == "control":
+        run_control_item(item, r)
     else:
         run_rename_item(item, r)
     return r
@@ -1242,7 +1385,9 @@ def replay(case) -> List[dict]:
         lines = case["files"][case["target"]].split("\n")[:-1]
         ops = tuple((int(li), op) for li, op in case["ops"])
         spec = _Spec(case.get("spec", ""))
-        if not ops:
+        if case.get("control"):
+            check_control(ctx, r, labels, spec, case["control"])
+        elif not ops:
             check_canonical(ctx, r, labels, spec)
         else:
             canon_meaning = ctx.meaning(case["files"][case["target"]], 1)
